@@ -1,0 +1,18 @@
+//go:build verif
+
+// Contracts for the deductive verifier in /verif (gocv). Comment-only file.
+
+package transaction
+
+// Interface contract (checked for tikv.KVStore; assumed for test doubles).
+//@ func (kvstore) GetTimestampWithRetry
+//@   modifies nothing
+//@   ensures result1 == nil ==> issued(result0)
+
+// A commit timestamp obtained under a commit-wait constraint is strictly greater than the constraint, or the call fails.
+//@ func (txn *KVTxn) GetTimestampForCommit
+//@   prop C13
+//@   loop 1 invariant cursor: err == nil && lastAttemptTS == ts && issued(ts)
+//@   loop 1 invariant frame: txn.commitWaitUntilTSO == old(txn.commitWaitUntilTSO)
+//@   ensures wait: result1 == nil ==> result0 > old(txn.commitWaitUntilTSO)
+//@   ensures issued: result1 == nil ==> issued(result0)
